@@ -2,6 +2,8 @@ pub mod closure;
 pub mod c01;
 pub mod c02;
 pub mod c08;
+pub mod c10;
+pub mod c16;
 pub mod c17;
 pub mod c18;
 pub mod c19;
@@ -9,7 +11,7 @@ pub mod c19;
 use crate::engine::{Property, Tier};
 
 pub const ALL: &[&str] = &[
-    "C01", "C02", "C08", "C17", "C18", "C19",
+    "C01", "C02", "C08", "C10", "C16", "C17", "C18", "C19",
 ];
 
 pub fn property(id: &str, tier: Tier) -> Option<Property> {
@@ -17,6 +19,8 @@ pub fn property(id: &str, tier: Tier) -> Option<Property> {
         "C01" => c01::property(tier),
         "C02" => c02::property(tier),
         "C08" => c08::property(tier),
+        "C10" => c10::property(tier),
+        "C16" => c16::property(tier),
         "C17" => c17::property(tier),
         "C18" => c18::property(tier),
         "C19" => c19::property(tier),
